@@ -127,6 +127,16 @@ def run(c):
     mism = c.validate("Trace_C11", events, stateful=True, shards=10)
     dmism = c.validate("Trace_C11", devents, stateful=False, shards=min(12, max(2, len(devents) // 20)), timeout=3000)
 
+    # binding self-test: one corrupted observation in a real history must be rejected at exactly that event
+    first = next(i for i in range(1, len(events)) if '"TraceReset"' in events[i][:40])
+    sl = list(events[:first]); k = len(sl) - 1
+    ce = json.loads(sl[k]); ce["ovf2"] ^= 1; sl[k] = json.dumps(ce)
+    bm = c.validate("Trace_C11", sl, stateful=True, shards=1)
+    c.cov["traces_validated_against_impl"] -= len(sl)
+    if [i for i, _ in bm] != [k]:
+        raise Infra("binding self-test failed: corrupted event %d, TLC rejected %r" % (k, [i for i, _ in bm]))
+    c.cov["binding_selftest"] = "second Overflow() reading of event %d of a replayed history corrupted by one bit: rejected by TLC at exactly that event" % (k + 1)
+
     def history_events(idx):
         lo = idx
         while lo > 0 and '"TraceReset"' not in events[lo][:40]: lo -= 1
